@@ -50,10 +50,55 @@ def _table(module, name):
     return v.elts
 
 
-def _unroll(module, loop):
-    if not isinstance(loop, ast.For) or loop.orelse or not isinstance(loop.iter, ast.Name):
+def _local_table(fn, name):
+    """the rows of a literal tuple a local is bound to by its only binding in the function"""
+    if fn is None:
         return None
-    rows = _table(module, loop.iter.id)
+    binds = [n for n in ast.walk(fn) if isinstance(n, ast.Name) and n.id == name and isinstance(n.ctx, (ast.Store, ast.Del))]
+    if len(binds) != 1 or any(a.arg == name for a in ast.walk(fn) if isinstance(a, ast.arg)):
+        return None
+    for st in ast.walk(fn):
+        if isinstance(st, ast.Assign) and len(st.targets) == 1 and st.targets[0] is binds[0] and isinstance(st.value, ast.Tuple) \
+                and st.value.elts and len(st.value.elts) <= MAX_ROWS:
+            return st.value.elts
+    return None
+
+
+def _update_from_pairs(st):
+    """`D.update((k, v) for ... in T if c)`  ->  `for ... in T: if c: D[k] = v` (what update does with an iterable of pairs)"""
+    c = st.value if isinstance(st, ast.Expr) else None
+    if not (isinstance(c, ast.Call) and isinstance(c.func, ast.Attribute) and c.func.attr == "update" and len(c.args) == 1 and not c.keywords
+            and isinstance(c.args[0], ast.GeneratorExp) and len(c.args[0].generators) == 1 and not c.args[0].generators[0].is_async
+            and isinstance(c.args[0].elt, ast.Tuple) and len(c.args[0].elt.elts) == 2 and _pure(c.func.value)):
+        return None
+    g = c.args[0].generators[0]
+    k, v = c.args[0].elt.elts
+    body = [ast.Assign(targets=[ast.Subscript(value=copy.deepcopy(c.func.value), slice=k, ctx=ast.Store())], value=v)]
+    for t in reversed(g.ifs):
+        body = [ast.If(test=t, body=body, orelse=[])]
+    tgt = copy.deepcopy(g.target)
+    for x in ast.walk(tgt):
+        if isinstance(x, ast.Name):
+            x.ctx = ast.Store()
+    loop = ast.For(target=tgt, iter=g.iter, body=body, orelse=[])
+    ast.copy_location(loop, st)
+    ast.fix_missing_locations(loop)
+    return loop
+
+
+def _unroll(module, loop, fn=None):
+    if isinstance(loop, ast.Expr):
+        loop = _update_from_pairs(loop)
+        if loop is None:
+            return None
+    if not isinstance(loop, ast.For) or loop.orelse:
+        return None
+    if isinstance(loop.iter, ast.Tuple) and loop.iter.elts and len(loop.iter.elts) <= MAX_ROWS:
+        rows = loop.iter.elts
+    elif isinstance(loop.iter, ast.Name):
+        rows = _table(module, loop.iter.id) or _local_table(fn, loop.iter.id)
+    else:
+        rows = None
     if rows is None:
         return None
     tgt = loop.target
@@ -83,8 +128,9 @@ def _unroll(module, loop):
     return out
 
 
-def _walk(module, node) -> bool:
+def _walk(module, node, fn=None) -> bool:
     changed = False
+    fn = fn if fn is not None else node
     for fld in ("body", "orelse", "finalbody"):
         blk = getattr(node, fld, None)
         if not isinstance(blk, list):
@@ -93,8 +139,8 @@ def _walk(module, node) -> bool:
         while i < len(blk):
             st = blk[i]
             if isinstance(st, ast.stmt):
-                changed |= _walk(module, st)
-                rep = _unroll(module, st)
+                changed |= _walk(module, st, fn)
+                rep = _unroll(module, st, fn)
                 if rep is not None:
                     blk[i:i + 1] = rep
                     changed = True
@@ -102,7 +148,7 @@ def _walk(module, node) -> bool:
                     continue
             i += 1
     for h in getattr(node, "handlers", []) or []:
-        changed |= _walk(module, h)
+        changed |= _walk(module, h, fn)
     return changed
 
 
